@@ -247,6 +247,14 @@ static void store(Type *ty) {
   switch (ty->kind) {
   case TY_STRUCT:
   case TY_UNION:
+    // An object that fits a register is copied by one instruction, so
+    // that a store to an _Atomic struct or union is indivisible.
+    if (ty->size == 2 || ty->size == 4 || ty->size == 8) {
+      char *r8 = (ty->size == 2) ? "%r8w" : (ty->size == 4) ? "%r8d" : "%r8";
+      println("  mov (%%rax), %s", r8);
+      println("  mov %s, (%%rdi)", r8);
+      return;
+    }
     for (int i = 0; i < ty->size; i++) {
       println("  mov %d(%%rax), %%r8b", i);
       println("  mov %%r8b, %d(%%rdi)", i);
